@@ -9,14 +9,16 @@ separately it compares that view with a freshly started server.
 Proved here, for ALL states, files, error maps:
  * `pushAll_file`: after a full re-publish, every file without an unsaved-error entry shows exactly
    what a fresh server would publish for the new map — provided equal-looking lists are equal
-   (`Faithful`: IsSameErrList ignores related information / the entry-file suffix);
+   (`Faithful`), which always holds since IsSameErrList also compares related information and the
+   entry file (`sameErrs_eq`, `faithful`; repair of finding K2);
  * `settled_*`: the settled states (no unsaved errors, client = fresh view) are closed under
    save / watched-files / open / close;
  * `change_*`: from a settled state an edit shows the buffer's syntax errors, or the saved
    non-syntax diagnostics when it has none;  `edit_save_cycle`: edit-then-save is settled again;
  * `dirty_view_overridden` (finding K1): a full re-publish triggered by ANOTHER file replaces the
    syntax errors of a still-unsaved buffer by saved diagnostics;
- * `stale_extra` (finding K2): a list that differs only in related information is not re-published.
+ * `*_fresh`: the unconditional forms;  `extra_republished` / `stale_extra_before`: finding K2 (a list that
+   differs only in related information was not re-published), repaired.
 -/
 import LuaHelper.Model.Diag
 import LuaHelper.Gen.Shapes
@@ -231,6 +233,31 @@ theorem rechange_fold_change (l : EMap) (t : St) : (l.foldl rechangeStep t).chan
 /-- lists that look the same to IsSameErrList are the same (false when only related information differs) -/
 def Faithful (old new : EMap) : Prop :=
   ∀ f o e, lk old f = some o → lk new f = some e → sameErrs o e = true → o = e
+
+/-- IsSameErrList is exact (since the repair of finding K2): lists it calls the same are the same -/
+theorem sameErrs_eq (a b : List Err) (h : sameErrs a b = true) : a = b := by
+  unfold sameErrs at h
+  have h' := eq_of_beq h
+  clear h
+  induction a generalizing b with
+  | nil => cases b with
+    | nil => rfl
+    | cons y ys => simp at h'
+  | cons x xs ih =>
+    cases b with
+    | nil => simp at h'
+    | cons y ys =>
+      simp only [List.map_cons, List.cons.injEq, Prod.mk.injEq] at h'
+      obtain ⟨⟨h1, h2, h3⟩, h4⟩ := h'
+      have hx : x = y := by cases x; cases y; simp_all
+      rw [hx, ih ys h4]
+#print axioms sameErrs_eq
+
+theorem sameErrs_refl (a : List Err) : sameErrs a a = true := by unfold sameErrs; exact beq_self_eq_true _
+
+/-- hence every pair of error maps is faithful: the hypothesis `Faithful` of the theorems below always holds -/
+theorem faithful (old new : EMap) : Faithful old new := fun _ o e _ _ h => sameErrs_eq o e h
+#print axioms faithful
 
 theorem pushAll_saved (s : St) (new : EMap) : (pushAll s new).saved = new := by
   unfold pushAll
@@ -627,14 +654,42 @@ theorem dirty_view_overridden :
   decide
 #print axioms dirty_view_overridden
 
-/-- K2: the new list differs from the old one only in related information: it is not re-published -/
-theorem stale_extra :
+/-- K2 as it was (IsSameErrList comparing ToString() only, `sameErrsOld`): the two lists look the same although
+    the related location moved -/
+theorem stale_extra_before :
+    sameErrsOld [⟨3, "dup", "also defined at g.lua:1"⟩] [⟨3, "dup", "also defined at g.lua:7"⟩] = true ∧
+    sameErrs [⟨3, "dup", "also defined at g.lua:1"⟩] [⟨3, "dup", "also defined at g.lua:7"⟩] = false := by
+  decide
+#print axioms stale_extra_before
+
+/-- K2 repaired: a list that differs only in related information is published again -/
+theorem extra_republished :
     let s0 : St := { saved := [("f.lua", [⟨3, "dup", "also defined at g.lua:1"⟩])],
                      client := fun g => if g == "f.lua" then [⟨3, "dup", "also defined at g.lua:1"⟩] else [] }
     let s1 := evSave s0 "g.lua" [("f.lua", [⟨3, "dup", "also defined at g.lua:7"⟩])]
-    s1.client "f.lua" = [⟨3, "dup", "also defined at g.lua:1"⟩] ∧
+    s1.client "f.lua" = [⟨3, "dup", "also defined at g.lua:7"⟩] ∧
     shown s1.saved "f.lua" = [⟨3, "dup", "also defined at g.lua:7"⟩] := by
   decide
-#print axioms stale_extra
+#print axioms extra_republished
+
+/-! ### the unconditional statements (every pair of maps is `faithful`) -/
+
+theorem save_fresh (s : St) (f : File) (new : EMap) (hs : Settled s) (hn : NodupKeys new) :
+    Settled (evSave s f new) ∧ (evSave s f new).saved = new := settled_save s f new hs hn (faithful _ _)
+#print axioms save_fresh
+
+theorem watched_fresh (s : St) (fs : List File) (new : EMap) (hs : Settled s) (hn : NodupKeys new) :
+    Settled (evWatched s fs new) ∧ (evWatched s fs new).saved = new := settled_watched s fs new hs hn (faithful _ _)
+#print axioms watched_fresh
+
+theorem open_fresh (s : St) (f : File) (new : EMap) (hs : Settled s) (hn : NodupKeys new) :
+    Settled (evOpen s f new) ∧ (evOpen s f new).saved = new := settled_open s f new hs hn (faithful _ _)
+#print axioms open_fresh
+
+theorem edit_save_fresh (s : St) (f : File) (errs : List Err) (new : EMap) (hs : Settled s) (he : errs ≠ [])
+    (hn : NodupKeys new) :
+    Settled (evSave (evChange s f errs) f new) ∧ (evSave (evChange s f errs) f new).saved = new :=
+  edit_save_cycle s f errs new hs he hn (faithful _ _)
+#print axioms edit_save_fresh
 
 end LuaHelper.C08
